@@ -1,0 +1,138 @@
+//go:build verif
+
+package cookies
+
+// Contracts for gcv (comment-only file; compiled only with -tags verif, and then to nothing).
+
+//@ stable csrf.cookieOpts csrf.time
+//@ nonnil csrf.cookieOpts
+
+// sortedByLenDesc: validateCookie sorts Cookie.Domains longest first (pkg/validation, verified there).
+//@ define sortedByLenDesc(d []string) bool = forall i int, j int :: 0 <= i && i < j && j < len(d) ==> len(d[i]) >= len(d[j])
+
+// ------------------------------------------------------------------ C18 / C09: the single cookie constructor
+//@ func MakeCookieFromOptions
+//@ safety
+//@ prop C18 C09
+//@ requires[config:samesite-validated] opts.SameSite == "" || opts.SameSite == "lax" || opts.SameSite == "strict" || opts.SameSite == "none"
+//@ ensures[attributes] result != nil && result.Name == name && result.Value == value && result.Path == opts.Path
+//@     && result.HttpOnly == opts.HTTPOnly && result.Secure == opts.Secure && result.SameSite == ret(ParseSameSite)
+//@     && arg(ParseSameSite, 0) == opts.SameSite
+//@ ensures[domain-rule] result.Domain == ite(ret(GetCookieDomain) != "", ret(GetCookieDomain),
+//@     ite(len(opts.Domains) > 0, opts.Domains[len(opts.Domains) - 1], ""))
+//@     && arg(GetCookieDomain, 0) == req && arg(GetCookieDomain, 1) == opts.Domains
+//@ ensures[max-age] (expiration > 0 ==> result.MaxAge == expiration / 1000000000) && (expiration < 0 ==> result.MaxAge == -1)
+//@     && (expiration == 0 ==> result.MaxAge == 0)
+
+//@ func GetCookieDomain
+//@ safety
+//@ nomod
+//@ prop C18
+//@ requires[config:domains-sorted-longest-first] sortedByLenDesc(cookieDomains)
+//@ loop 0 invariant[no-earlier-match] rangeindex >= -1 && forall j int :: 0 <= j && j <= rangeindex ==> !HasSuffix(host, cookieDomains[j])
+//@ ensures[is-a-matching-configured-domain] result != "" ==> HasSuffix(ret(GetRequestHost), result)
+//@     && exists k int :: 0 <= k && k < len(cookieDomains) && cookieDomains[k] == result
+//@ ensures[longest-match] result != "" ==> forall j int :: 0 <= j && j < len(cookieDomains) && HasSuffix(ret(GetRequestHost), cookieDomains[j])
+//@     ==> len(cookieDomains[j]) <= len(result)
+//@ ensures[none-matches] result == "" ==> forall j int :: 0 <= j && j < len(cookieDomains) ==>
+//@     !HasSuffix(ret(GetRequestHost), cookieDomains[j]) || cookieDomains[j] == ""
+
+//@ func ParseSameSite
+//@ safety
+//@ nomod
+//@ prop C18
+//@ requires[config:samesite-validated] v == "" || v == "lax" || v == "strict" || v == "none"
+//@ ensures[table] (v == "lax" ==> result == 2) && (v == "strict" ==> result == 3) && (v == "none" ==> result == 4) && (v == "" ==> result == 0)
+
+//@ func warnInvalidDomain
+//@ nomod
+
+// ------------------------------------------------------------------ C03 / C05: the CSRF cookie
+//@ func (*csrf).HashOAuthState
+//@ nomod
+//@ prop C03
+//@ ensures[hash-of-state-nonce] result == ite(c.OAuthState == nil, "", hashOf(bytes(c.OAuthState)))
+
+//@ func (*csrf).HashOIDCNonce
+//@ nomod
+//@ prop C05
+//@ ensures[hash-of-oidc-nonce] result == ite(c.OIDCNonce == nil, "", hashOf(bytes(c.OIDCNonce)))
+
+//@ func (*csrf).CheckOAuthState
+//@ nomod
+//@ prop C03
+//@ ensures[state-matches-hash-of-cookie-nonce] result <==> ite(c.OAuthState == nil, "", hashOf(bytes(c.OAuthState))) == hashed
+
+//@ func (*csrf).CheckOIDCNonce
+//@ nomod
+//@ prop C05
+//@ ensures[nonce-matches-hash-of-cookie-nonce] result <==> ite(c.OIDCNonce == nil, "", hashOf(bytes(c.OIDCNonce))) == hashed
+
+//@ func (*csrf).GetCodeVerifier
+//@ nomod
+//@ prop C05
+//@ ensures[the-cookies-verifier] result == c.CodeVerifier
+
+//@ func (*csrf).SetSessionNonce
+//@ prop C05
+//@ modifies SessionState.Nonce
+//@ ensures[session-gets-this-logins-nonce] s.Nonce == c.OIDCNonce
+
+//@ func LoadCSRFCookie
+//@ prop C03 C05
+//@ at call decodeCSRFCookie assert[only-the-cookie-named-for-this-state] cookie.Name == cookieName && arg(decodeCSRFCookie, 0) == cookie
+//@     && arg(decodeCSRFCookie, 1) == opts
+//@ ensures[csrf-only-from-validated-cookie] ret1 == nil ==> called(decodeCSRFCookie) && ret1(decodeCSRFCookie) == nil
+//@     && ret0 == ret0(decodeCSRFCookie) && ret0 != nil
+//@ ensures[error-means-none] ret1 != nil ==> ret0 == nil
+
+//@ func decodeCSRFCookie
+//@ prop C03 C02 C09
+//@ ensures[only-validated] ret1 == nil ==> ret2(Validate) && arg(Validate, 0) == cookie && arg(Validate, 1) == opts.Secret
+//@     && arg(Validate, 2) == opts.Expire
+//@ ensures[non-nil-on-success] ret1 == nil ==> ret0 != nil
+//@ at call decrypt assert[decrypts-the-validated-value] ret2(Validate) && arg(decrypt, 0) == ret0(Validate)
+//@ at call msgpack.Unmarshal assert[decodes-the-decrypted-value] ret1(decrypt) == nil && arg(msgpack.Unmarshal, 0) == ret0(decrypt)
+
+//@ func (*csrf).SetCookie
+//@ prop C03 C05 C18 C02
+//@ at call MakeCookieFromOptions assert[signed-encrypted-value-own-name] ret1(encodeCookie) == nil && arg(MakeCookieFromOptions, 2) == ret0(encodeCookie)
+//@     && arg(MakeCookieFromOptions, 1) == ret(cookieName) && arg(MakeCookieFromOptions, 3) == c.cookieOpts
+//@     && arg(MakeCookieFromOptions, 4) == c.cookieOpts.CSRFExpire
+//@ at call http.SetCookie assert[sets-that-cookie] arg(http.SetCookie, 1) == ret(MakeCookieFromOptions)
+//@ ensures[encode-error-no-cookie] ret1(encodeCookie) != nil ==> ret1 != nil && !called(http.SetCookie)
+
+//@ func (*csrf).ClearCookie
+//@ prop C18 C03
+//@ at call MakeCookieFromOptions assert[deletion-same-name-and-options] arg(MakeCookieFromOptions, 1) == ret(cookieName)
+//@     && arg(MakeCookieFromOptions, 2) == "" && arg(MakeCookieFromOptions, 3) == c.cookieOpts && arg(MakeCookieFromOptions, 4) < 0
+//@ at call http.SetCookie assert[sets-the-deletion] arg(http.SetCookie, 1) == ret(MakeCookieFromOptions)
+
+//@ func (*csrf).encodeCookie
+//@ prop C02 C05
+//@ at call SignedValue assert[signs-ciphertext-not-plaintext] ret1(encrypt) == nil && arg(SignedValue, 2) == ret0(encrypt)
+//@     && arg(SignedValue, 0) == c.cookieOpts.Secret && arg(SignedValue, 1) == ret(cookieName)
+//@ at call encrypt assert[encrypts-the-packed-csrf] ret1(msgpack.Marshal) == nil && arg(encrypt, 0) == ret0(msgpack.Marshal)
+//@     && arg(encrypt, 1) == c.cookieOpts
+//@ ensures[value-is-signed-ciphertext] ret1 == nil ==> called(SignedValue) && ret0 == ret0(SignedValue)
+
+//@ func ExtractStateSubstring
+//@ safety
+//@ nomod
+//@ prop C03 C19
+//@ ensures[first-eight] (len(state) >= 8 ==> result == state[0:8]) && (len(state) < 8 ==> result == "")
+
+//@ func csrfCookieName
+//@ nomod
+//@ prop C03
+//@ ensures[name-format] result == ite(stateSubstring == "", opts.Name + "_csrf", opts.Name + "_" + stateSubstring + "_csrf")
+
+//@ func GenerateCookieName
+//@ nomod
+//@ prop C03
+//@ ensures[name-from-state] result == ite(opts.CSRFPerRequest && len(state) >= 8, opts.Name + "_" + state[0:8] + "_csrf", opts.Name + "_csrf")
+
+//@ func NewCSRF
+//@ prop C05 C03
+//@ ensures[fresh-32-byte-nonces-and-verifier] ret1 == nil ==> ret0 != nil && arg(Nonce#0, 0) == 32 && arg(Nonce#1, 0) == 32
+//@     && ret1(Nonce#0) == nil && ret1(Nonce#1) == nil
